@@ -50,7 +50,7 @@ func (World) Stub(prop string) []string {
 func (World) Assumptions(prop string) []string {
 	common := []string{
 		"validator info of epoch e+1 is derived from the reference node's lists of epoch e: shard, list and index of every listed key are the previous result, every key has exactly one entry, a key is never both new and leaving, new keys never have a low rating, jailed/inactive never empties a shard's eligible entries and never drops a shard below its minimum (the latter except with knob allow_below_min, where the shuffler then refuses the input and the run ends)",
-		"per node: Prepare(e) before Action(e) before Prepare(e+1); duplicates of Prepare only before Action; for some epochs competing epoch-start candidates of the same new epoch (other PrevRandSeed, same validator info, same previous epoch): some nodes prepare candidate A, compute groups and look keys up, then prepare candidate B, other nodes only ever see B; Action only for the last candidate and only on nodes that prepared it; oracles speak about the candidate a node holds last (a node still holding an abandoned candidate is not asked about that epoch); restarts anywhere; a node whose state was lost because a save failed (code only logs it) and that then restarted leaves the run",
+		"per node: Prepare(e) before Action(e) before Prepare(e+1); duplicates of Prepare only before Action; for some epochs competing epoch-start candidates of the same new epoch built on the same previous epoch (other PrevRandSeed and/or another selection of registry operations applied to the same previous-epoch state, i.e. same PrevRandSeed with other validator info): some nodes prepare candidate A, compute groups and look keys up, then prepare candidate B, other nodes only ever see B; Action only for the last candidate and only on nodes that prepared it; oracles speak about the candidate a node holds last (a node still holding an abandoned candidate is not asked about that epoch); restarts anywhere; a node whose state was lost because a save failed (code only logs it) and that then restarted leaves the run",
 		"Go map iteration order cannot be seeded: the verdict does not depend on it on the unchanged tree; a map-order dependent mutant is found statistically (ReplayAttempts=30 for C13)",
 	}
 	switch prop {
@@ -62,7 +62,7 @@ func (World) Assumptions(prop string) []string {
 	case "C13":
 		return append(common,
 			"compared: GetAll{Eligible,Waiting,Leaving}ValidatorsPublicKeys(epoch) of every live node, order included; recorded UpdateNodeLists results grouped by identical arguments; N direct shuffler calls with maps rebuilt in other insertion orders",
-			"shuffler instances with different call histories get the same arguments: the recorded arguments of an earlier epoch are recomputed by a fresh shuffler, by a veteran instance that first serves the newest epoch, and by the real shuffler of a live node (a node re-computing an older epoch after a newer one); all must equal the result recorded when the epoch was first computed. Calling a node's shuffler directly is side-effect free on the unchanged tree (every call recomputes its configuration from the epoch). A rollback through EpochStartPrepare of an older epoch is not driven: the coordinator derives the previous configuration from its currentEpoch, which never decreases, so such a delivery would contradict the 'consistent with the previous epoch' precondition",
+			"one shuffler instance is asked for the same (epoch, randomness) with two different argument sets (recorded and mutated leaving lists, both orders) and must agree with fresh instances and with the recorded result; shuffler instances with different call histories get the same arguments: the recorded arguments of an earlier epoch are recomputed by a fresh shuffler, by a veteran instance that first serves the newest epoch, and by the real shuffler of a live node (a node re-computing an older epoch after a newer one); all must equal the result recorded when the epoch was first computed. Calling a node's shuffler directly is side-effect free on the unchanged tree (every call recomputes its configuration from the epoch). A rollback through EpochStartPrepare of an older epoch is not driven: the coordinator derives the previous configuration from its currentEpoch, which never decreases, so such a delivery would contradict the 'consistent with the previous epoch' precondition",
 			"each node receives the peer miniblocks (one per shard) in its own order (knob permute_body), so shards enter its input maps in another order, and builds its genesis maps in its own shard order; the order of entries inside a miniblock is the same for all nodes (list order is input, not map construction: the low-rating leaving list of a shard follows the entry order of the body)")
 	case "C14":
 		return append(common,
